@@ -90,7 +90,10 @@ def gen_query(rng, world, heavy_w):
         if what == "loading_at":
             q["kw"] = rng.choice([{}, {}, {"pressure_unit": "kPa", "pressure_mode": "absolute"}, {"pressure_mode": "relative"},
                                   {"loading_unit": "mol"}, {"loading_basis": "mass", "loading_unit": "mg"},
-                                  {"material_basis": "volume", "material_unit": "cm3"}, {"pressure_mode": "absolute"}])
+                                  {"material_basis": "volume", "material_unit": "cm3"}, {"pressure_mode": "absolute"},
+                                  {"pressure_mode": "relative%"}, {"loading_basis": "volume_liquid", "loading_unit": "cm3"},
+                                  {"loading_basis": "percent"}, {"material_basis": "molar", "material_unit": "mmol"},
+                                  {"pressure_unit": "torr", "pressure_mode": "absolute", "loading_basis": "volume_gas", "loading_unit": "L"}])
         else:
             q["kw"] = rng.choice([{}, {}, {"pressure_unit": "Pa"}, {"pressure_mode": "relative"}, {"loading_unit": "mol"},
                                   {"loading_basis": "mass", "loading_unit": "mg"}, {"loading_basis": "mass"}])
@@ -98,10 +101,16 @@ def gen_query(rng, world, heavy_w):
         i = rng.choice(pts)
         q.update(q="spreading_pressure_at", iso=i, branch=rng.choice(["ads", "ads", "des"]), fill=rng.choice(FILLS),
                  frac=rng.choice([0.5, 0.9, 0.02, -0.3, 1.0, 1.4]),
-                 kw=rng.choice([{}, {}, {"pressure_unit": "kPa", "pressure_mode": "absolute"}, {"loading_unit": "mol"}]))
+                 kw=rng.choice([{}, {}, {"pressure_unit": "kPa", "pressure_mode": "absolute"}, {"loading_unit": "mol"},
+                                {"pressure_mode": "relative"}, {"loading_basis": "mass", "loading_unit": "g"},
+                                {"material_basis": "volume", "material_unit": "cm3"}]))
     elif g == "export":
         i = rng.randrange(len(isos))
         q.update(q=rng.choice(["to_dict", "to_json", "to_csv", "to_aif", "str", "repr", "to_xl"]), iso=i)
+        if q["q"] == "to_csv" and rng.random() < 0.3:
+            q["kw"] = {"separator": ";"}
+        if q["q"] == "to_json" and rng.random() < 0.3:
+            q["kw"] = {"indent": 2}
     elif g == "adsorbate":
         i = rng.randrange(len(isos))
         q.update(q="adsorbate", iso=i, method=rng.choice(["saturation_pressure", "liquid_density", "gas_density", "molar_mass",
@@ -116,6 +125,8 @@ def gen_query(rng, world, heavy_w):
                  kw=rng.choice([{}, {}, {"pressure_unit": "kPa"}, {"loading_unit": "mol"}, {"pressure_mode": "relative"}]))
         if q["q"] == "m_spreading_pressure_at":
             q["kw"] = rng.choice([{}, {}, {"pressure_unit": "kPa"}])
+        if q["q"] in ("m_pressure", "m_loading"):
+            q["points"] = rng.choice([60, 20, 5])
     elif g == "n2char":
         i = r["n2_main"] if rng.random() < 0.8 or "n2_ref" not in r else r["n2_ref"]
         heavy = rng.random() < heavy_w
@@ -136,25 +147,29 @@ def gen_query(rng, world, heavy_w):
                 q["kw"] = rng.choice([{"exp": 2.5}, {}, {"p_limits": [0, 0.1], "exp": 3}])
         elif what == "psd_mesoporous":
             q["kw"] = rng.choice([{}, {"psd_model": "BJH"}, {"psd_model": "DH"}, {"branch": "ads"}, {"pore_geometry": "slit"},
-                                  {"thickness_model": "Halsey"}, {"kelvin_model": "Kelvin-KJS", "branch": "ads"}, {"psd_model": "nope"}])
+                                  {"thickness_model": "Halsey"}, {"kelvin_model": "Kelvin-KJS", "branch": "ads"}, {"psd_model": "nope"},
+                                  {"pore_geometry": "sphere"}, {"meniscus_geometry": "hemispherical"}, {"meniscus_geometry": "cylindrical", "branch": "ads"},
+                                  {"p_limits": [0.2, 0.9]}, {"psd_model": "BJH", "thickness_model": "SiO2 Jaroniec/Kruk/Olivier"}])
         elif what == "psd_microporous":
             ar_like = {"molecular_diameter": 0.34, "polarizability": 1.63e-3, "magnetic_susceptibility": 3.25e-8,
                        "surface_density": 8.52e18, "liquid_density": 1.4, "adsorbate_molar_mass": 39.948}
             solid = {"molecular_diameter": 0.31, "polarizability": 1.9e-3, "magnetic_susceptibility": 9.5e-8, "surface_density": 2.4e19}
             q["kw"] = rng.choice([{}, {"psd_model": "HK-CY"}, {"psd_model": "RY"}, {"pore_geometry": "cylinder"}, {"material_model": "AlSiOxideIon"},
                                   {"p_limits": [0, 0.2]}, {"adsorbate_model": ar_like}, {"adsorbate_model": ar_like, "psd_model": "RY"},
-                                  {"material_model": solid}, {"material_model": "AlPhOxideIon", "pore_geometry": "sphere"}])
+                                  {"material_model": solid}, {"material_model": "AlPhOxideIon", "pore_geometry": "sphere"},
+                                  {"psd_model": "RY-CY"}, {"branch": "des"}, {"psd_model": "nope"}])
         elif what == "psd_dft":
             q["kw"] = rng.choice([{}, {"bspline_order": 3}, {"branch": "des"},
                                   {"kernel_units": {"loading_basis": "volume_gas", "loading_unit": "cm3"}},
-                                  {"kernel_units": {"loading_unit": "mmoles"}}, {"kernel_units": {"pressure_mode": "relative%"}}])
+                                  {"kernel_units": {"loading_unit": "mmoles"}}, {"kernel_units": {"pressure_mode": "relative%"}},
+                                  {"p_limits": [0.0, 0.5]}, {"kernel": "nope"}])
     elif g == "enth":
         what = rng.choice(["isosteric_enthalpy", "enthalpy_sorption_whittaker", "enthalpy_sorption_whittaker", "initial_enthalpy_point",
                            "initial_enthalpy_comp"])
         q.update(q=what)
         if what == "isosteric_enthalpy":
             q["isos"] = fam
-            q["kw"] = rng.choice([{}, {"loading_points": [0.5, 1.0, 1.5]}, {"branch": "des"}])
+            q["kw"] = rng.choice([{}, {"loading_points": [0.5, 1.0, 1.5]}, {"branch": "des"}, {"loading_points": [0.05, 9.0]}])
         elif what == "enthalpy_sorption_whittaker":
             q["iso"] = rng.choice(fam + ([r["model"]] if "model" in r else []))
             q["kw"] = rng.choice([{}, {}, {"model": "Langmuir"}, {"model": "Langmuir"}, {"loading": [0.5, 1.0]}, {"model": "Henry"}])
@@ -163,7 +178,8 @@ def gen_query(rng, world, heavy_w):
             q["kw"] = {"enthalpy_key": "enthalpy"}
     elif g == "henry":
         q.update(q=rng.choice(["initial_henry_slope", "initial_henry_slope", "initial_henry_virial"]), iso=rng.choice(fam + pts[:1]))
-        q["kw"] = rng.choice([{}, {"max_adjrms": 0.05}, {"p_limits": [0, 1.0]}]) if q["q"] == "initial_henry_slope" else {}
+        q["kw"] = rng.choice([{}, {"max_adjrms": 0.05}, {"p_limits": [0, 1.0]}, {"l_limits": [0, 1.5]}, {"branch": "des"}]) \
+            if q["q"] == "initial_henry_slope" else rng.choice([{}, {}, {"optimization_params": {"max_nfev": 200}}])
     elif g == "fit":
         heavy = rng.random() < heavy_w
         q.update(q="model_iso", iso=rng.choice(fam),
@@ -196,6 +212,10 @@ def gen_query(rng, world, heavy_w):
         else:
             q["args"] = [1.0]
             q["kw"] = {"npoints": 6}
+        if what in ("iast_point", "iast_point_fraction") and rng.random() < 0.3:
+            q["kw"] = dict(q.get("kw") or {}, **rng.choice([{"adsorbed_mole_fraction_guess": [0.7, 0.3]}, {"warningoff": True}, {"branch": "des"}]))
+        if what == "reverse_iast" and rng.random() < 0.3:
+            q["kw"] = rng.choice([{"gas_mole_fraction_guess": [0.4, 0.6]}, {"warningoff": True}])
     return q
 
 
@@ -366,6 +386,10 @@ def exec_query(objs, q, scratch):
                 iso.to_xl(p)
                 val = os.path.getsize(p) > 0
                 os.unlink(p)
+            elif name == "to_csv" and q.get("kw"):
+                val = iso.to_csv(**q["kw"])
+            elif name == "to_json" and q.get("kw"):
+                val = iso.to_json(**q["kw"])
             else:
                 val = getattr(iso, name)()
         elif q["g"] == "adsorbate":
@@ -396,9 +420,9 @@ def exec_query(objs, q, scratch):
             elif name == "m_spreading_pressure_at":
                 val = iso.spreading_pressure_at(x, **_kw(q))
             elif name == "m_pressure":
-                val = iso.pressure(**{k: v for k, v in _kw(q).items() if k.startswith("pressure")})
+                val = iso.pressure(points=q.get("points", 60), **{k: v for k, v in _kw(q).items() if k.startswith("pressure")})
             else:
-                val = iso.loading(**{k: v for k, v in _kw(q).items() if k.startswith("loading")})
+                val = iso.loading(points=q.get("points", 60), **{k: v for k, v in _kw(q).items() if k.startswith("loading")})
         elif q["g"] == "n2char":
             iso = objs[q["iso"]]
             if name == "alpha_s":
